@@ -9,6 +9,7 @@ package connector
 import (
 	"context"
 	"strconv"
+	"strings"
 	"sync"
 	"time"
 
@@ -21,6 +22,7 @@ import (
 )
 
 func init() {
+	verifRegister("VerifC02Shared", VerifC02Shared)
 	verifRegister("VerifC02World", VerifC02World)
 	verifRegister("VerifC02Step", VerifC02Step)
 	verifRegister("VerifC03Restore", VerifC03Restore)
@@ -45,6 +47,7 @@ func cIdx(p opencdc.Position) int {
 type cEvent struct {
 	kind string // "commit" | "send" | "handled" | "open" | "teardown" | "streamclosed"
 	pos  int    // commit: position index stored (-1 none / empty); send: last index; handled: index
+	conn string // connector the event belongs to
 }
 
 type cWorld struct {
@@ -52,13 +55,27 @@ type cWorld struct {
 	events   []cEvent
 	faults   bool
 	sendFail bool
+	oneFault bool // at most one store operation fails
+	fired    bool
 	// committed store content
 	store map[string][]byte
 }
 
+// fault draws whether the current store operation fails.
+func (w *cWorld) fault(name string) bool {
+	if !w.faults || (w.oneFault && w.fired) {
+		return false
+	}
+	if verifBool(name) {
+		w.fired = true
+		return true
+	}
+	return false
+}
+
 func (w *cWorld) log(kind string, pos int) {
 	w.mu.Lock()
-	w.events = append(w.events, cEvent{kind, pos})
+	w.events = append(w.events, cEvent{kind, pos, "src"})
 	w.mu.Unlock()
 }
 
@@ -75,7 +92,7 @@ type cTx struct {
 type cTxKey struct{}
 
 func (d *cDB) NewTransaction(ctx context.Context, update bool) (database.Transaction, context.Context, error) {
-	if d.w.faults && verifBool("db.newtx.fail") {
+	if d.w.fault("db.newtx.fail") {
 		return nil, ctx, cerrors.New("verif: NewTransaction failed")
 	}
 	tx := &cTx{w: d.w, sets: map[string][]byte{}}
@@ -84,7 +101,7 @@ func (d *cDB) NewTransaction(ctx context.Context, update bool) (database.Transac
 func (d *cDB) Close() error               { return nil }
 func (d *cDB) Ping(context.Context) error { return nil }
 func (d *cDB) Set(ctx context.Context, key string, value []byte) error {
-	if d.w.faults && verifBool("db.set.fail") {
+	if d.w.fault("db.set.fail") {
 		return cerrors.New("verif: Set failed")
 	}
 	if tx, ok := ctx.Value(cTxKey{}).(*cTx); ok && tx != nil {
@@ -111,18 +128,25 @@ func (t *cTx) Commit() error {
 	if t.done {
 		return cerrors.New("verif: commit of finished transaction")
 	}
-	if t.w.faults && verifBool("db.commit.fail") {
+	if t.w.fault("db.commit.fail") {
 		t.done = true
 		return cerrors.New("verif: Commit failed")
 	}
 	t.done = true
 	t.w.mu.Lock()
-	stored := -2
-	for k, v := range t.sets {
-		t.w.store[k] = v
-		stored = cStoredIdx(v)
+	if len(t.sets) == 0 {
+		t.w.events = append(t.w.events, cEvent{"commit", -2, "src"})
 	}
-	t.w.events = append(t.w.events, cEvent{"commit", stored})
+	for _, conn := range []string{"src", "srcB"} {
+		// one commit event per connector document written by this transaction
+		for k, v := range t.sets {
+			if k[strings.LastIndex(k, ":")+1:] != conn {
+				continue
+			}
+			t.w.store[k] = v
+			t.w.events = append(t.w.events, cEvent{"commit", cStoredIdx(v), conn})
+		}
+	}
 	t.w.mu.Unlock()
 	return nil
 }
@@ -199,8 +223,16 @@ func (p *cPlugin) LifecycleOnDeleted(context.Context, pconnector.SourceLifecycle
 func (p *cPlugin) NewStream() pconnector.SourceRunStream { return p.stream }
 
 type cStream struct {
-	w   *cWorld
-	ctx context.Context
+	w    *cWorld
+	ctx  context.Context
+	conn string
+}
+
+func (s *cStream) id() string {
+	if s.conn == "" {
+		return "src"
+	}
+	return s.conn
 }
 
 func (s *cStream) Client() pconnector.SourceRunStreamClient { return s }
@@ -225,6 +257,9 @@ func (s *cStream) Send(r pconnector.SourceRunRequest) error {
 	lastSent := -1
 	maxCommitted := -1
 	for _, e := range w.events {
+		if e.conn != s.id() {
+			continue
+		}
 		switch e.kind {
 		case "send":
 			lastSent = e.pos
@@ -241,7 +276,7 @@ func (s *cStream) Send(r pconnector.SourceRunRequest) error {
 		// C02: a successful commit containing this position or a later one happened before
 		verifAssert(i <= maxCommitted, "c02-ack-before-durable")
 		lastSent = i
-		w.events = append(w.events, cEvent{"send", i})
+		w.events = append(w.events, cEvent{"send", i, s.id()})
 	}
 	return nil
 }
@@ -313,6 +348,80 @@ func newSourceWorld(bundle int, faults, sendFail bool) (*cWorld, *Source, *cPlug
 		deferredAckBackoffCap: time.Millisecond,
 	}
 	return w, s, pl, p
+}
+
+// addSource attaches a second source (own plugin and stream) to the same
+// persister and store.
+func addSource(w *cWorld, p *Persister, id string) (*Source, *cPlugin) {
+	pl := &cPlugin{w: w, stream: &cStream{w: w, conn: id}}
+	inst := &Instance{ID: id, Type: TypeSource, Plugin: "fake", logger: log.Nop(), persister: p}
+	s := &Source{
+		Instance:              inst,
+		dispenser:             cDispenser{pl},
+		errs:                  make(chan error, 64),
+		teardownFlushTimeout:  cTeardownTimeout(),
+		deferredAckMaxRetries: 2,
+		deferredAckBackoffCap: time.Millisecond,
+	}
+	return s, pl
+}
+
+// VerifC02Shared: two sources share one persister (as all connectors of a
+// server do); their acks land in the same flush, any store operation may fail.
+// No plugin is told a position is durable unless a successful commit contained
+// that connector's position.
+func VerifC02Shared() {
+	K := verifParam("K", 2)
+	bundle := 1 + verifConcrete(verifChoice("bundle", 3))
+	w, sA, _, p := newSourceWorld(bundle, true, false)
+	w.oneFault = true
+	sB, _ := addSource(w, p, "srcB")
+	ctx := context.Background()
+	if sA.Open(ctx) != nil || sB.Open(ctx) != nil {
+		verifFail("c02-open-failed")
+	}
+	next := map[*Source]int{}
+	for k := 0; k < K; k++ {
+		s := sA
+		if verifBool("useB") {
+			s = sB
+		}
+		if err := s.Ack(ctx, []opencdc.Position{cPos(next[s])}); err != nil {
+			break
+		}
+		next[s]++
+		switch verifConcrete(verifChoice("between", 3)) {
+		case 1:
+			p.Flush(ctx)
+		case 2:
+			verifYield()
+		}
+	}
+	p.Flush(ctx)
+	_ = sA.Teardown(ctx)
+	_ = sB.Teardown(ctx)
+	p.Wait()
+	verifSchedOff()
+	w.mu.Lock()
+	defer w.mu.Unlock()
+	for _, conn := range []string{"src", "srcB"} {
+		lastCommit, lastSend := -1, -1
+		for _, e := range w.events {
+			if e.conn != conn {
+				continue
+			}
+			switch e.kind {
+			case "commit":
+				if e.pos > lastCommit {
+					lastCommit = e.pos
+				}
+			case "send":
+				lastSend = e.pos
+			}
+		}
+		verifAssert(lastSend <= lastCommit, "c02-sent-beyond-durable")
+	}
+	verifCover("end")
 }
 
 // VerifC02World: K engine acks in read order with flushes, timers, store
